@@ -177,7 +177,7 @@ pub fn property() -> Property {
         subchecks: vec![SubCheck {
             name: "counts-and-prefixes",
             rule: "G-MAP (all modes + converts, <=40 objects) x G-DIFF (HR/EZ, lazer mirror variants, key mods, HO, IN, Random) x every n in 0..total+3 plus u32::MAX and 2*total+7. Oracle: independent recount from the public hit_objects of the explicitly converted map (osu circles/sliders/spinners(+holds) per prefix; taiko max_combo = #hits; mania n_objects/n_hold_notes per prefix, HO => 0 holds; catch n_fruits = circles + sum(span_count+1)); counted units == min(n,total); every count non-decreasing in n; n > total => all fields same-value-equal to the unlimited result; is_convert flag iff converted. Non-trivial: a slider with >=1 repeat or a hold/spinner, and total >= 2.",
-            quick: 6000,
+            quick: 20_000,
             thorough: 100_000,
             tape_len: 1400,
             f: case,
